@@ -28,7 +28,7 @@ def h_contract(func="cmap_confined", timeout=60, **kw):
                      {"name": "symbolic str, len <= 5", "per_condition_timeout": timeout}, ASSUMPTIONS)
 
 
-def h_alpha(func="cmap_confined", maxlen=4, timeout=200, part=None, **kw):
+def h_alpha(func="cmap_confined", maxlen=4, timeout=200, part=None, alpha=None, **kw):
     """the same contracts, decided exhaustively over an 8-letter alphabet by symbolic choice (symx): every name up to maxlen"""
     mod = importlib.import_module("harness.ch_C15")
     import pdfminer.cmapdb as cm
@@ -37,8 +37,9 @@ def h_alpha(func="cmap_confined", maxlen=4, timeout=200, part=None, **kw):
 
     def fn(ex):
         n = ex.choice(maxlen + 1, "len")
-        name = "".join(mod.ALPHA[ex.choice(len(mod.ALPHA), "c%d" % i)] for i in range(n))
-        if func == "cmap_confined":
+        A = alpha or mod.ALPHA
+        name = "".join(A[ex.choice(len(A), "c%d" % i)] for i in range(n))
+        if func in ("cmap_confined", "cmap_confined_sibling"):
             args = (name, ex.choice(2, "e1") == 1, ex.choice(2, "e2") == 1)
         else:
             args = (name, ex.choice(3, "taken"), ex.choice(2, "ext"))
@@ -50,9 +51,10 @@ def h_alpha(func="cmap_confined", maxlen=4, timeout=200, part=None, **kw):
 
     def conc(m, info):
         return {"function": info["function"], "args": info["args"], "kwargs": {}}
-    fns = {"cmap_confined": [cm.CMapDB._load_data], "image_name_confined": [im.ImageWriter._create_unique_image_name]}[func]
-    return core.run_symx({"cmap_confined": "H1_cmap", "image_name_confined": "H2_imagename"}[func], fn, fns,
-                         {"name": "every string of length <= %d over the alphabet %r" % (maxlen, mod.ALPHA), "exists": "symbolic answers"}, timeout, concretize=conc, part=part)
+    fns = {"cmap_confined": [cm.CMapDB._load_data], "cmap_confined_sibling": [cm.CMapDB._load_data], "image_name_confined": [im.ImageWriter._create_unique_image_name]}[func]
+    return core.run_symx({"cmap_confined": "H1_cmap", "cmap_confined_sibling": "H1_cmap", "image_name_confined": "H2_imagename"}[func], fn, fns,
+                         {"name": "every string of length <= %d over the alphabet %r" % (maxlen, alpha or mod.ALPHA), "exists": "symbolic answers",
+                          "CMAP_PATH": "/e/a/ (sibling directories spelled by the alphabet)" if func == "cmap_confined_sibling" else "default"}, timeout, concretize=conc, part=part)
 
 
 def replay(harness, inp):
@@ -74,4 +76,5 @@ def jobs(tier):
     for k in range(4):
         J.append(Job("H1_cmap:alphabet:%d" % k, "h_alpha", {"func": "cmap_confined", "maxlen": ml, "part": [k, 4, 7]}, 300 if tier == "quick" else 1800, "H1_cmap"))
         J.append(Job("H2_imagename:alphabet:%d" % k, "h_alpha", {"func": "image_name_confined", "maxlen": ml, "part": [k, 4, 7]}, 300 if tier == "quick" else 1800, "H2_imagename"))
+    J.append(Job("H1_cmap:sibling", "h_alpha", {"func": "cmap_confined_sibling", "maxlen": 7 if tier == "quick" else 9, "alpha": "./a"}, 300 if tier == "quick" else 1800, "H1_cmap"))
     return J
